@@ -171,6 +171,12 @@ def gen_points(rng, tier):
         scen.append(dict(names=names, frac=list(fr), mob=mob, rule=rng.choice(list(RULES)), labn=rng.choice([1, 2]),
                          post={"mode": mode, "arg": arg}, cache=rng.random() < 0.7,
                          second=rng.choice(["same", "none", "majority"])))
+    # the option names the ONLY stable phase (single-phase region of the excluded phase): the rules that are plain sums give zero
+    for rule in [r for r in RULES if RULES[r][0] in ("wiener upper", "lab", "labyrinth")] or list(RULES)[:1]:
+        for labn in (1, 2):
+            for nme in ALLPHASES[:2]:
+                scen.append(dict(names=[nme], frac=[Fr(1)], mob=[[MOBS[1]]], rule=rule, labn=labn, post={"mode": "exclude", "arg": [nme]},
+                                 cache=(labn == 1), second="same"))
     # a phase that is stable as TWO composition sets at the point (miscibility gap): the equilibrium lists its name twice,
     # and an option that names the phase means both sets
     for i in range(12 if tier == "quick" else 120):
